@@ -90,6 +90,15 @@ impl Proc {
     }
 
     pub fn kill(mut self) {
+        // VERIF_GRACEFUL: let the worker see end of input and exit on its own (coverage builds
+        // write their profile at exit)
+        if std::env::var("VERIF_GRACEFUL").is_ok() {
+            let Proc { mut child, stdin, stdout } = self;
+            drop(stdin);
+            drop(stdout);
+            let _ = child.wait();
+            return;
+        }
         let _ = self.child.kill();
         let _ = self.child.wait();
     }
